@@ -1,7 +1,34 @@
-(* C06 harness: verdict bit 1 = model plan <> implementation plan,
-   bit 2 = check_c06 rejects the implementation's plan. Depends on Model/ only. *)
+(* C06 harness. Depends on Model/ only.
+   A case is (rcase, reported) where reported = Slim() of every conflict of
+   the plan core.Reconcile returned, in the plan's order.
+   bit 1 = model plan <> implementation plan, or the model's slim form of the
+          implementation's conflicts <> the implementation's Slim();
+   bit 2 = check_c06_reported rejects the implementation's plan or its
+          reported conflicts;
+   bit 8 = input outside the well-formedness domain. *)
 From Coq Require Import List Bool Arith String.
 Import ListNotations.
 From Mv Require Import Common.Bytes Model.Entry Model.Reconcile Model.CheckC06 Harness.ReconcileH.
 
+(* plan-only form (kept for harness runs without -slim) *)
 Definition c06_failures := failures_with check_c06.
+
+Definition rscase := (rcase * list conflict)%type.
+
+Definition slim_corr_bit (c : rscase) : nat :=
+  let '((m, anc, a, b, pl), ss) := c in
+  if conflicts_eqb (map slim_conflict (conflicts pl)) ss then 0 else 1.
+
+Fixpoint c06s_failures (i : nat) (cs : list rscase) : list (nat * nat) :=
+  match cs with
+  | [] => []
+  | c :: t =>
+    let v := (if inputs_wf (fst c)
+              then Nat.max (corr_bit (fst c)) (slim_corr_bit c)
+                   + (if check_c06_reported c then 0 else 2)
+              else 8) in
+    match v with
+    | O => c06s_failures (S i) t
+    | _ => (i, v) :: c06s_failures (S i) t
+    end
+  end.
